@@ -110,6 +110,16 @@ func TestProgram(t *testing.T) {
 	ev.Check(t, ev.Get(prop), "program", genCase, run)
 }
 
+// genPhi draws a branch-merging program (see mpcl.DrawPhiProg).
+func genPhi(t *rapid.T) Case {
+	p := mpcl.DrawPhiProg(t, rapid.IntRange(2, 3).Draw(t, "nparams"))
+	return Case{Prog: p, Inputs: mpcl.DrawInputsN(t, p, 12, 24)}
+}
+
+func TestPhi(t *testing.T) {
+	ev.Check(t, ev.Get(prop), "program", genPhi, run)
+}
+
 func TestReplay(t *testing.T) { ev.Replay(t, ev.Get(prop)) }
 
 var _ = fmt.Sprint
